@@ -1745,6 +1745,10 @@ func genC11(g *G, sc *Scenario, tier string, seed uint64) {
 		case 6:
 			return map[string]any{"Type": "JavascriptTransform", "Code": js("function transform_entities(entities) { throw new Error('scripted transform failure'); }"), "Parallelism": float64(g.Range(1, 3))}
 		case 7:
+			if g.P(0.4) {
+				// a transform that drops the whole batch: the sink is handed an empty list
+				return map[string]any{"Type": "JavascriptTransform", "Code": js("function transform_entities(entities) { return []; }")}
+			}
 			return map[string]any{"Type": "JavascriptTransform", "Code": js("function transform_entities(entities) { var out = []; for (var i = 0; i < entities.length; i++) { if (i % 2 == 0) { out.push(entities[i]); } } return out; }")}
 		default:
 			return map[string]any{"Type": "HttpTransform", "Url": "http://" + g.Pick([]string{"ok.sim", "fail.sim", "err.sim"}) + "/transform"}
